@@ -28,6 +28,8 @@
    pull_data / pull_stream       collapsed_restrict_to_data(...).pull_data / iter_pull_data for one
                                  package, restrictions abstracted to (bucket, matches?)
    non_incremental_pull          non_incremental_collapsed_restrict_to_data.pull_data
+   closure / close_groups        Licenses.groups: the nested @group definitions of a license_groups
+                                 file flattened (order-independent reachability)
    license_filter / _seq         domain._apply_license_filter as bound by _pkg_filters: one query /
                                  a sequence of queries against one long-lived filter
    canon / enc_set / enc_res     canonical (sorted, duplicate-free) encoders for the harness
@@ -338,6 +340,23 @@ Definition run_pull (i : bool * list source * list str) : val :=
   let '(fd, srcs, pre) := i in enc_res (pull_data fd srcs pre).
 Definition run_nipull (srcs : list source) : val := enc_res (non_incremental_pull srcs).
 
+(* ------------------------------------------------------------------ Licenses.groups (repo_objs.py) *)
+(* profiles/license_groups: name -> members, a member "@h" referring to group h.  Licenses.groups
+   flattens the references (Licenses._expand_groups: repeated passes in definition order until no
+   "@" member is left; a missing group, "@" alone and a self reference are dropped).  The result
+   does not depend on the definition order: group g denotes the concrete members reachable from g
+   through references.  [raw] is the file in definition order; fuel = number of groups + 1. *)
+Fixpoint closure (raw : list (str * list str)) (fuel : nat) (g : str) : list str :=
+  match fuel with
+  | O => []
+  | S f => flat_map (fun m => match m with
+                              | c :: h => if N.eqb c AT then closure raw f h else [m]
+                              | [] => [m]
+                              end) (lookup g raw)
+  end.
+Definition close_groups (raw : list (str * list str)) : list (str * list str) :=
+  map (fun kv => (fst kv, closure raw (S (length raw)) (fst kv))) raw.
+
 (* ------------------------------------------------------------------ domain._apply_license_filter *)
 (* The only caller of incremental_expansion_license.  [master] = ACCEPT_LICENSE tokens bound into
    the filter by _pkg_filters, [entries] = the token lists of the package.license lines.  A query
@@ -374,7 +393,8 @@ Inductive case_in : Type :=
 | CLicense (i : list str * list (str * list str) * list str)
 | CPull (i : bool * list source * list str)
 | CNiPull (srcs : list source)
-| CLicFilter (i : list str * list (list str) * list (str * list str) * list lic_query).
+| CLicFilter (i : list str * list (list str) * list (str * list str) * list lic_query)
+| CGroups (raw : list (str * list str)).
 Definition enc_bres (r : bres) : val := match r with BOk b => VB b | BFail e => enc_err e end.
 (* domain._pkg_filters installs the license filter only when there is an ACCEPT_LICENSE token or a
    package.license entry; without it every package passes *)
@@ -385,6 +405,10 @@ Definition license_visible_seq master (entries : list (list str)) groups (qs : l
 Definition run_licfilter (i : list str * list (list str) * list (str * list str) * list lic_query) : val :=
   let '(master, entries, groups, qs) := i in
   VL (map enc_bres (license_visible_seq master entries groups qs)).
+(* stream "groups": Licenses(...).groups for a license_groups file, as [name; sorted members] in
+   definition order *)
+Definition run_groups (raw : list (str * list str)) : val :=
+  VL (map (fun kv => VL [VS (fst kv); enc_set (snd kv)]) (close_groups raw)).
 Definition run_case_with (strict : bool) (c : case_in) : val :=
   match c with
   | CExpand i => run_expand i
@@ -394,6 +418,7 @@ Definition run_case_with (strict : bool) (c : case_in) : val :=
   | CPull i => run_pull i
   | CNiPull s => run_nipull s
   | CLicFilter i => run_licfilter i
+  | CGroups raw => run_groups raw
   end.
 Definition run_case := run_case_with true.            (* the repaired tree *)
 Definition run_case_pinned := run_case_with false.    (* the pinned tree *)
